@@ -21,7 +21,7 @@ RULE = (
     "gca_gca_intersection: arc pairs built through a common integer direction (certain crossing), through a common "
     "direction outside one arc (certain non-crossing, circles still cross there), and random pairs; crossing angle "
     "classes generic (>=1e-2) and shallow (1e-5..1e-2); extreme_gca_latitude: apex inside / outside the arc decided "
-    "exactly. Placements: generic, through a pole, endpoint at a pole, along a meridian (incl. planes x=0, y=0), along the "
+    "exactly. Placements: generic, through a pole, endpoint at a pole, endpoint 2e-6..1e-3 rad beside a pole, along a meridian (incl. planes x=0, y=0), along the "
     "equator, across lon=180 and across lon=0. Each case is repeated under endpoint swap, arc swap and 6 exact rotations "
     "about the polar axis (quarter turns and Pythagorean triples), expectation re-derived exactly and results compared "
     "with each other. Margins: every generated case is >= 2e-6 rad (10x float safety) from every decision boundary. "
@@ -38,7 +38,7 @@ MIN_EVAL = {
 }
 
 MARGIN = 2e-6
-PLACEMENTS = ["generic", "through_pole", "endpoint_pole", "meridian", "meridian_x0", "meridian_y0", "equator", "across_180", "across_0"]
+PLACEMENTS = ["generic", "through_pole", "endpoint_pole", "endpoint_near_pole", "meridian", "meridian_x0", "meridian_y0", "equator", "across_180", "across_0"]
 
 
 def cases(tier, seed):
@@ -75,6 +75,19 @@ def _arc(rng, placement):
         elif placement == "endpoint_pole":
             s = int(rng.choice([-1, 1]))
             a = (0, 0, s)
+            b = _ivec(rng)
+            if rng.random() < 0.5:
+                a, b = b, a
+        elif placement == "endpoint_near_pole":
+            # an end point 2e-6 .. 1e-3 rad away from a pole (inside and outside the library's pole-snap band of ~1.4e-4 rad)
+            s = int(rng.choice([-1, 1]))
+            off = 10 ** rng.uniform(-5.7, -3)
+            big = 10**6
+            r = max(1, int(round(big * off)))
+            th = rng.uniform(0, 2 * math.pi)
+            a = (int(round(r * math.cos(th))), int(round(r * math.sin(th))), s * big)
+            if a[0] == 0 and a[1] == 0:
+                a = (1, 0, s * big)
             b = _ivec(rng)
             if rng.random() < 0.5:
                 a, b = b, a
